@@ -31,7 +31,8 @@ impl Prop for C02 {
         gen::enumerate_histories(0)
     }
     fn strategy(&self, tier: Tier) -> BoxedStrategy<HistCase> {
-        gen::hist(tier.pick(20, 40), &[0, 0, 1, 2])
+        use proptest::prelude::*;
+        prop_oneof![40 => gen::hist(tier.pick(20, 40), &[0, 0, 1, 2]), 1 => gen::hist_big(&[0, 1, 2])].boxed()
     }
     fn extra_evidence(&self, root: &std::path::Path) -> serde_json::Value {
         crate::engine::fuzz_stats(root, "graph_history")
@@ -45,8 +46,9 @@ impl Prop for C02 {
             return out;
         };
         out.failures.clear(); // outcome mismatches are C01's subject
-        let q = query_names(&m, true);
-        let every = self.tier.pick(2, 1);
+        let big = case.universe > 6;
+        let mut q = query_names(&m, true);
+        let every = if big { 25 } else { self.tier.pick(2, 1) };
         let mut inverted = 0;
         let mut absent = 0;
         for (i, op) in case.ops.iter().enumerate() {
@@ -59,6 +61,9 @@ impl Prop for C02 {
                 return out;
             }
             if (i + 1) % every == 0 && i + 1 < case.ops.len() {
+                if big {
+                    q = query_names(&m, false);
+                }
                 let st = coherent(&g, &m, &q, false, &mut out);
                 inverted += st.inverted_pairs;
                 absent += st.absent_queries;
@@ -68,6 +73,9 @@ impl Prop for C02 {
             }
         }
         if out.failures.is_empty() {
+            if big {
+                q = query_names(&m, false);
+            }
             let st = coherent(&g, &m, &q, true, &mut out);
             inverted += st.inverted_pairs;
             absent += st.absent_queries;
